@@ -3,8 +3,10 @@
 package verifsim
 
 import (
+	"runtime"
 	"sync"
 	"syscall"
+	"time"
 	"unsafe"
 )
 
@@ -15,10 +17,12 @@ const (
 	YUnlock  = 3 // just released a mutex
 	YRLock   = 4
 	YRUnlock = 5
-	YHost    = 6 // entry of a harness host function
-	YOpStart = 7 // client operation about to be invoked
-	YOpEnd   = 8 // client operation returned
+	YHost    = 6  // entry of a harness host function
+	YOpStart = 7  // client operation about to be invoked
+	YOpEnd   = 8  // client operation returned
 	YChan    = 14 // about to attempt a channel operation
+	YSpawn   = 15 // a goroutine was started (go statement or timer callback of the library)
+	YAtomic  = 16 // just after an operation of sync/atomic
 	EvSwitch = 9
 	EvBlock  = 10
 	EvGrant  = 11
@@ -28,30 +32,32 @@ const (
 
 // Scheduling policies.
 const (
-	PolRTC     = 0 // run to completion in task order, with up to K forced preemptions
-	PolUniform = 1 // uniform random choice at every yield
-	PolSticky  = 2 // keep running with probability (P-1)/P
-	PolPCT     = 3 // PCT-style priorities with D change points
-	PolSync    = 4 // uniform random, but only at synchronisation yields (not polls)
+	PolRTC      = 0 // run to completion in task order, with up to K forced preemptions
+	PolUniform  = 1 // uniform random choice at every yield
+	PolSticky   = 2 // keep running with probability (P-1)/P
+	PolPCT      = 3 // PCT-style priorities with D change points
+	PolSync     = 4 // uniform random, but only at synchronisation yields (not polls)
 	NumPolicies = 5
 )
 
-const maxTasks = 8
+const maxTasks = 16
 
 // Task is one simulated caller goroutine.
 type Task struct {
-	gate   uint32
-	ID     int
-	state  int // 0 runnable, 1 blocked on a mutex, 2 done, 4 waiting for a channel operation to become possible
-	stamp  uint64
+	gate  uint32
+	ID    int
+	state int // 0 runnable, 1 blocked on a mutex, 2 done, 4 waiting for a channel operation to become possible
+	stamp uint64
 	// exact says whether the polled wait models the real operation exactly
 	// (buffered channel, condition variable) or only approximately
 	// (unbuffered channel, select: a rendezvous between two polling parties
 	// never happens)
-	exact bool
+	exact  bool
 	waitOn unsafe.Pointer
 	prio   int
 	fn     func()
+	kill   bool // the simulation is over: leave at the next wake-up (runtime.Goexit)
+	exited uint32
 }
 
 // Event is one entry of the (bounded) event log of a concurrency run.
@@ -77,12 +83,12 @@ type Sched struct {
 	preempt [8]int // step numbers at which a preemption / priority change happens
 	npre    int
 
-	Steps    int
-	Switches int
-	progress uint64 // bumped by every step of every task: a task polling a channel is retried only after somebody else moved
+	Steps     int
+	Switches  int
+	progress  uint64 // bumped by every step of every task: a task polling a channel is retried only after somebody else moved
 	ChanWaits int
-	StepCap  int
-	Aborted  bool // step cap hit: contexts report cancellation from now on
+	StepCap   int
+	Aborted   bool // step cap hit: contexts report cancellation from now on
 
 	Deadlock     bool
 	DeadlockWait [maxTasks]unsafe.Pointer
@@ -96,6 +102,14 @@ type Sched struct {
 
 	Events  []Event
 	NEvents int
+
+	stopped bool
+	clients int // tasks added before Run (the callers); later ones were started by the library
+	// StopWhen >= 0: the simulation ends as soon as this task is done,
+	// whatever the others (goroutines the library started itself) are doing.
+	StopWhen int
+	Spawned  int
+	Leftover int // tasks that were still alive when the simulation ended
 
 	// Probes
 	PreemptAfterUnlock int
@@ -124,7 +138,7 @@ func CurrentTask() int {
 // NewSched prepares a simulation; the policy and its parameters are drawn
 // from c (policy first, so that an all-zero trace is run-to-completion).
 func NewSched(c *Chooser, stepCap int) *Sched {
-	s := &Sched{C: c, cur: -1, StepCap: stepCap, Events: make([]Event, 1<<14)}
+	s := &Sched{C: c, cur: -1, StepCap: stepCap, Events: make([]Event, 1<<14), StopWhen: -1}
 	s.Policy = c.Intn(NumPolicies)
 	switch s.Policy {
 	case PolRTC:
@@ -160,15 +174,11 @@ func (s *Sched) Run() {
 	if s.n == 0 {
 		return
 	}
+	s.clients = s.n
 	for i := 0; i < s.n; i++ {
 		t := s.tasks[i]
 		s.wg.Add(1)
-		go func() {
-			wait(&t.gate)
-			defer s.wg.Done()
-			defer s.finish()
-			t.fn()
-		}()
+		go s.body(t)
 	}
 	active = s
 	first := s.pick(false)
@@ -177,11 +187,105 @@ func (s *Sched) Run() {
 	wait(&s.mainGate)
 	active = nil
 	s.clearCur()
-	if !s.Deadlock {
+	if s.Deadlock || s.stopped {
+		// give the tasks that are still parked up, one at a time
+		for i := 0; i < s.n; i++ {
+			if t := s.tasks[i]; t.state != 2 && load32(&t.exited) == 0 {
+				t.kill = true
+				open(&t.gate)
+				for n := 0; load32(&t.exited) == 0 && n < 200000; n++ {
+					runtime.Gosched()
+					if n > 1000 {
+						time.Sleep(10 * time.Microsecond)
+					}
+				}
+			}
+		}
+	}
+	if !s.Deadlock && !s.stopped {
 		// Real happens-before edge from the end of every task to the
 		// harness, as a host application's wg.Wait() would give.
 		s.wg.Wait()
 	}
+}
+
+// Go is the go statement of the library (the rewriter redirects it here).
+// Inside a simulation the new goroutine becomes a task of the scheduler;
+// outside, it is an ordinary goroutine.
+//
+//go:norace
+func Go(fn func()) {
+	s := active
+	if s == nil || s.cur < 0 {
+		go fn()
+		return
+	}
+	s.spawn(fn)
+	s.yield(YSpawn, 0)
+}
+
+// spawn adds a task while the simulation is running (a slot of a finished
+// task is reused; with every slot busy the goroutine runs unscheduled, which
+// is reported through Unscheduled).
+//
+//go:norace
+func (s *Sched) spawn(fn func()) {
+	slot := -1
+	if s.n < maxTasks {
+		slot = s.n
+		s.n++
+	} else {
+		for i := 0; i < s.n; i++ {
+			if s.tasks[i].state == 2 && i != s.cur {
+				slot = i
+				break
+			}
+		}
+	}
+	if slot < 0 {
+		Unscheduled++
+		go fn()
+		return
+	}
+	t := &Task{ID: slot, fn: fn, state: 0}
+	if s.Policy == PolPCT {
+		t.prio = 100 + s.C.Intn(1000)*maxTasks + t.ID
+	}
+	s.tasks[slot] = t
+	taskCtx[slot] = taskCtx[s.cur] // the goroutine works for the call that started it
+	s.Spawned++
+	s.wg.Add(1)
+	go s.body(t)
+}
+
+// body is the goroutine of one task.
+func (s *Sched) body(t *Task) {
+	defer s.wg.Done()
+	defer store32(&t.exited, 1)
+	wait(&t.gate)
+	if t.kill {
+		return
+	}
+	defer func() {
+		if !t.kill {
+			s.finish()
+		}
+	}()
+	t.fn()
+}
+
+// Unscheduled counts goroutines of the library that could not be put under
+// the scheduler (evidence: must stay 0 for the simulation to be exact).
+var Unscheduled int
+
+//go:norace
+func (s *Sched) anyRunnable() bool {
+	for i := 0; i < s.n; i++ {
+		if t := s.tasks[i]; t.state == 0 && i != s.cur {
+			return true
+		}
+	}
+	return false
 }
 
 //go:norace
@@ -335,10 +439,15 @@ func (s *Sched) chanWait(exact bool) {
 	t.state = 4
 	t.stamp = s.progress
 	next := s.pick(false)
+	for next < 0 && jumpToNextTimer() {
+		// everybody waits: time passes until the next timer
+		s.progress++
+		next = s.pick(false)
+	}
 	if next < 0 {
 		t.waitOn = nil
 		s.deadlock()
-		wait(&t.gate)
+		t.park()
 		return
 	}
 	if next == s.cur {
@@ -350,7 +459,7 @@ func (s *Sched) chanWait(exact bool) {
 	s.resume(next)
 	s.cur = next
 	open(&s.tasks[next].gate)
-	wait(&t.gate)
+	t.park()
 }
 
 //go:norace
@@ -361,7 +470,7 @@ func (s *Sched) switchTo(next int) {
 	s.resume(next)
 	s.cur = next
 	open(&s.tasks[next].gate)
-	wait(&prev.gate)
+	prev.park()
 }
 
 // block parks the running task until wake(on) makes it runnable again.
@@ -382,10 +491,20 @@ func (s *Sched) block(on unsafe.Pointer) {
 		s.MaxBlocked = nb
 	}
 	next := s.pick(false)
+	for next < 0 && jumpToNextTimer() {
+		s.progress++
+		next = s.pick(false)
+	}
 	if next < 0 {
 		s.deadlock()
-		// never returns in practice: the gate is never opened again
-		wait(&t.gate)
+		// (resumed only to leave, once the simulation has been given up)
+		t.park()
+		return
+	}
+	if next == s.cur {
+		// (a timer callback released what this task was waiting for)
+		t.state = 0
+		t.waitOn = nil
 		return
 	}
 	s.Switches++
@@ -393,7 +512,7 @@ func (s *Sched) block(on unsafe.Pointer) {
 	s.resume(next)
 	s.cur = next
 	open(&s.tasks[next].gate)
-	wait(&t.gate)
+	t.park()
 }
 
 //go:norace
@@ -428,7 +547,33 @@ func (s *Sched) finish() {
 	t.state = 2
 	s.progress++
 	s.log(EvDone, 0)
+	clientsDone := s.clients > 0
+	for i := 0; i < s.clients; i++ {
+		if s.tasks[i].state != 2 {
+			clientsDone = false
+		}
+	}
+	if s.StopWhen == s.cur || (clientsDone && s.Spawned > 0 && s.n > s.clients && !s.anyRunnable()) {
+		// the callers are done; what is left are goroutines the library
+		// started itself (still running or waiting for ever): they are
+		// abandoned, not reported as a deadlock of the callers
+		for i := 0; i < s.n; i++ {
+			if s.tasks[i].state != 2 {
+				s.Leftover++
+			}
+		}
+		if s.Leftover > 0 || s.StopWhen == s.cur {
+			s.stopped = true
+			s.cur = -1
+			open(&s.mainGate)
+			return
+		}
+	}
 	next := s.pick(false)
+	for next < 0 && jumpToNextTimer() {
+		s.progress++
+		next = s.pick(false)
+	}
 	if next < 0 {
 		for i := 0; i < s.n; i++ {
 			if s.tasks[i].state == 1 || s.tasks[i].state == 4 {
@@ -461,6 +606,18 @@ func load32(p *uint32) uint32 { return *p }
 //go:norace
 //go:noinline
 func store32(p *uint32, v uint32) { *p = v }
+
+// park waits until the task is resumed; a task that is resumed after the
+// simulation has ended leaves for good (deferred functions of the library run,
+// nothing can recover it), so that no goroutine and no thread stays behind.
+//
+//go:norace
+func (t *Task) park() {
+	wait(&t.gate)
+	if t.kill {
+		runtime.Goexit()
+	}
+}
 
 //go:norace
 func open(gate *uint32) {
@@ -635,13 +792,101 @@ type rlocker RWMutex
 func (r *rlocker) Lock()   { (*RWMutex)(r).RLock() }
 func (r *rlocker) Unlock() { (*RWMutex)(r).RUnlock() }
 
-// Everything else of package sync is the real thing.
+// Map and Locker are the real thing (their operations never block).
 type (
-	WaitGroup = sync.WaitGroup
-	Once      = sync.Once
-	Map       = sync.Map
-	Locker    = sync.Locker
+	Map    = sync.Map
+	Locker = sync.Locker
 )
+
+// Once has the API of sync.Once; a second caller waits on a simulated mutex
+// (a real sync.Once would block the thread while the first caller is parked).
+type Once struct {
+	m    Mutex
+	done bool
+}
+
+// Do mirrors sync.Once.Do.
+func (o *Once) Do(f func()) {
+	o.m.Lock()
+	defer o.m.Unlock()
+	if !o.done {
+		defer func() { o.done = true }()
+		f()
+	}
+}
+
+// WaitGroup has the API of sync.WaitGroup.  Inside a simulation Wait is a
+// polled wait (like a condition variable); the real WaitGroup underneath
+// supplies the happens-before edges the race detector expects.
+type WaitGroup struct {
+	real sync.WaitGroup
+	n    int64
+}
+
+//go:norace
+func (w *WaitGroup) Add(delta int) {
+	w.real.Add(delta)
+	w.n += int64(delta)
+	if s := active; s != nil && s.cur >= 0 {
+		s.progress++
+		s.yield(YChan, 5)
+	}
+}
+
+// Done mirrors sync.WaitGroup.Done.
+func (w *WaitGroup) Done() { w.Add(-1) }
+
+//go:norace
+func (w *WaitGroup) Wait() {
+	s := active
+	if s == nil || s.cur < 0 {
+		w.real.Wait()
+		return
+	}
+	for w.n > 0 {
+		s.yield(YChan, 6)
+		if w.n <= 0 {
+			break
+		}
+		s.chanWait(true)
+	}
+	w.real.Wait()
+}
+
+// Go mirrors sync.WaitGroup.Go (go1.25).
+func (w *WaitGroup) Go(f func()) {
+	w.Add(1)
+	Go(func() {
+		defer w.Done()
+		f()
+	})
+}
+
+// AtomicPoint is wrapped around every operation of sync/atomic in the
+// library: a scheduling point right after it.
+//
+//go:norace
+func AtomicPoint[T any](v T) T {
+	if s := active; s != nil && s.cur >= 0 {
+		s.yield(YAtomic, 0)
+	}
+	return v
+}
+
+// AtomicPointCall is AtomicPoint for operations used as statements.
+//
+//go:norace
+func AtomicPointCall(op func()) {
+	op()
+	if s := active; s != nil && s.cur >= 0 {
+		s.yield(YAtomic, 0)
+	}
+}
+
+// LibrarySpawns is set (by a file the rewriter generates) when the library
+// starts goroutines or timers of its own: every case then runs under a
+// scheduler, not only those of the concurrency property.
+var LibrarySpawns bool
 
 // Cond has the API of sync.Cond.  Outside a simulation it is one; inside, a
 // waiter is parked by the scheduler (polling, like channel operations) until
@@ -701,4 +946,17 @@ func (c *Cond) Broadcast() {
 }
 
 // OnceFunc mirrors sync.OnceFunc.
-func OnceFunc(f func()) func() { return sync.OnceFunc(f) }
+func OnceFunc(f func()) func() {
+	var o Once
+	return func() { o.Do(f) }
+}
+
+// OnceValue mirrors sync.OnceValue.
+func OnceValue[T any](f func() T) func() T {
+	var o Once
+	var v T
+	return func() T {
+		o.Do(func() { v = f() })
+		return v
+	}
+}
